@@ -296,3 +296,37 @@ func (r *Rng) Pick(n int) int { return r.Intn(n) }
 func Fmt(format string, a ...interface{}) string { return fmt.Sprintf(format, a...) }
 
 var _ = clptypes.ModuleName
+
+// Export ends the current block (if any), commits and returns ExportAppStateAndValidators of the committed state.
+func (c *Chain) Export() (appState []byte, height int64, err error) {
+	if c.InBlock {
+		c.EndBlock()
+		c.Commit()
+	}
+	exp, err := c.App.ExportAppStateAndValidators(false, nil)
+	if err != nil {
+		return nil, 0, err
+	}
+	return exp.AppState, exp.Height, nil
+}
+
+// NewFromExport initialises a fresh application on an empty DB from an exported app state.
+// A panic of InitChain is returned as an error.
+func NewFromExport(appState []byte, height int64, t time.Time) (c *Chain, err error) {
+	db := dbm.NewMemDB()
+	app := newApp(db)
+	defer func() {
+		if r := recover(); r != nil {
+			err = fmt.Errorf("InitChain panicked: %v", r)
+		}
+	}()
+	app.InitChain(abci.RequestInitChain{
+		Time:            t,
+		Validators:      []abci.ValidatorUpdate{},
+		ConsensusParams: sifapp.DefaultConsensusParams,
+		AppStateBytes:   appState,
+		InitialHeight:   height,
+	})
+	app.Commit()
+	return &Chain{App: app, DB: db, Height: height, Time: t, Accounts: map[string]Account{}, BlockStep: 6 * time.Second}, nil
+}
